@@ -141,6 +141,7 @@ def free_runs(chk):
         chk.traces += 1
     if rejected:
         raise vlib.Inconclusive("real pool event logs are not behaviours of EvalPool.tla (model/code divergence): %s" % chk.notes[-1])
+    return det
 
 
 def run(chk, replay_rec):
@@ -242,7 +243,7 @@ def run(chk, replay_rec):
                       dict(vectors=ref + culprit))
     if unreal > len(obs) // 50:
         raise vlib.Inconclusive("%d of %d schedules could not be realised on the real code" % (unreal, len(obs)))
-    free_runs(chk)
+    det = free_runs(chk)
     chk.sample(dict(schedule=obs[1]["sched"], digest=obs[1]["digest"], triangles=obs[1]["nt"], layers=obs[1]["layers"]))
     chk.sample(dict(free_run=det[0]))
     chk.cov.update(dict(schedules_forced=len(obs), schedules_unrealised=unreal, distinct_schedules=len(scheds),
